@@ -21,6 +21,9 @@ pub enum Out {
     /// log_to_file_and_writer: the file is /dev/full (every write(2) fails with ENOSPC, so every
     /// flush of a buffering mode fails), the writer is healthy: what is asserted is the writer
     WriterBesideFullDevice,
+    /// a FileLogWriter registered with add_writer (records addressed to it with a brace target);
+    /// such writers get a bare shutdown() from the handle, not "flush first" like the primary one
+    AdditionalFile,
     Stdout,
     Stderr,
 }
@@ -128,7 +131,7 @@ fn drive(case: &Case, log: Box<dyn log::Log>, handle: flexi_logger::LoggerHandle
 
 /// size of the burst before a double shutdown (small where every record may rotate a file)
 fn burst(case: &Case) -> u32 {
-    if case.cfg.rot.is_some() && case.out == Out::File {
+    if case.cfg.rot.is_some() && matches!(case.out, Out::File | Out::AdditionalFile) {
         80
     } else {
         1500
@@ -144,6 +147,7 @@ fn ack_file(case_file: &Path) -> std::path::PathBuf {
 /// `exit_file` (the case file): (child process) the thread whose terminal call returns first ends the process
 fn drive_x(case: &Case, log: Box<dyn log::Log>, handle: flexi_logger::LoggerHandle, after_flush: &mut dyn FnMut(&[String]) -> Result<(), String>, exit_file: Option<&Path>) -> Run {
     let exit_after = exit_file.is_some();
+    let target: &'static str = if case.out == Out::AdditionalFile { "{F}" } else { "flv" };
     let mut run = Run { expected: Vec::new(), clone_drop_before_write: false, pending_bytes: 0, flush_failure: None, acked_before: None, bg: None };
     let mut q = 0u32;
     let mut clone_dropped = false;
@@ -165,7 +169,7 @@ fn drive_x(case: &Case, log: Box<dyn log::Log>, handle: flexi_logger::LoggerHand
             while !s2.load(std::sync::atomic::Ordering::SeqCst) {
                 let p = payload(1, i, 20);
                 i += 1;
-                l2.log(&log::Record::builder().args(format_args!("{p}")).level(log::Level::Info).target("flv").module_path(Some("flv")).build());
+                l2.log(&log::Record::builder().args(format_args!("{p}")).level(log::Level::Info).target(target).module_path(Some("flv")).build());
             }
         }))
     } else {
@@ -176,7 +180,7 @@ fn drive_x(case: &Case, log: Box<dyn log::Log>, handle: flexi_logger::LoggerHand
             LOp::Write(len) => {
                 let p = payload(0, q, (*len).max(8));
                 q += 1;
-                log.log(&log::Record::builder().args(format_args!("{p}")).level(log::Level::Info).target("flv").module_path(Some("flv")).build());
+                log.log(&log::Record::builder().args(format_args!("{p}")).level(log::Level::Info).target(target).module_path(Some("flv")).build());
                 run.pending_bytes += p.len() + 1;
                 run.expected.push(p);
                 if clone_dropped {
@@ -251,12 +255,12 @@ fn drive_x(case: &Case, log: Box<dyn log::Log>, handle: flexi_logger::LoggerHand
             let (l2, a2, s2) = (log.clone(), acked.clone(), stop2.clone());
             // bounded: with a rotating family every record may rotate (and list the directory); in
             // async mode an unbounded producer would leave shutdown() a backlog of minutes
-            let max = if case.cfg.rot.is_some() && case.out == Out::File { 150u32 } else { 50_000 };
+            let max = if case.cfg.rot.is_some() && matches!(case.out, Out::File | Out::AdditionalFile) { 150u32 } else { 50_000 };
             let j = std::thread::spawn(move || {
                 let mut i = 0u32;
                 while !s2.load(Ordering::SeqCst) && i < max {
                     let p = payload(2, i, 20);
-                    l2.log(&log::Record::builder().args(format_args!("{p}")).level(log::Level::Info).target("flv").module_path(Some("flv")).build());
+                    l2.log(&log::Record::builder().args(format_args!("{p}")).level(log::Level::Info).target(target).module_path(Some("flv")).build());
                     i += 1;
                     a2.store(i, Ordering::SeqCst);
                 }
@@ -283,7 +287,7 @@ fn drive_x(case: &Case, log: Box<dyn log::Log>, handle: flexi_logger::LoggerHand
             for _ in 0..burst(case) {
                 let p = payload(0, q, 60);
                 q += 1;
-                log.log(&log::Record::builder().args(format_args!("{p}")).level(log::Level::Info).target("flv").module_path(Some("flv")).build());
+                log.log(&log::Record::builder().args(format_args!("{p}")).level(log::Level::Info).target(target).module_path(Some("flv")).build());
                 run.pending_bytes += p.len() + 1;
                 run.expected.push(p);
             }
@@ -355,7 +359,7 @@ impl Property for P {
     fn strategy(_tier: Tier) -> BoxedStrategy<Case> {
         let mode = prop_oneof![2 => sync_mode_strat(), 1 => async_mode_strat()];
         (
-            prop_oneof![12 => Just(Out::File), 6 => Just(Out::Writer), 2 => Just(Out::Stdout), 2 => Just(Out::Stderr), 1 => Just(Out::WriterBesideFullDevice)],
+            prop_oneof![12 => Just(Out::File), 6 => Just(Out::Writer), 2 => Just(Out::Stdout), 2 => Just(Out::Stderr), 1 => Just(Out::WriterBesideFullDevice), 3 => Just(Out::AdditionalFile)],
             mode,
             prop::option::weighted(0.5, (prop_oneof![Just(30u64), Just(200u64), 10u64..400], naming_strat())),
             prop_oneof![3 => Just(Terminal::Shutdown), 3 => Just(Terminal::DropLastHandle), 2 => Just(Terminal::Flush), 1 => Just(Terminal::ShutdownTwice), 1 => Just(Terminal::DropLastTwo), 1 => Just(Terminal::ShutdownWhileLogging)],
@@ -386,10 +390,10 @@ impl Property for P {
                     mode
                 };
                 let terminal = if mode.is_async() && terminal == Terminal::Flush { Terminal::Shutdown } else { terminal };
-                let terminal = if terminal == Terminal::DropLastTwo && (out != Out::File || rot.is_some()) { Terminal::DropLastHandle } else { terminal };
+                let terminal = if terminal == Terminal::DropLastTwo && (!matches!(out, Out::File | Out::AdditionalFile) || rot.is_some()) { Terminal::DropLastHandle } else { terminal };
                 // without rotation: reading one file that only grows is an atomic enough observation while
                 // the second thread keeps logging (a snapshot of a rotating family is not)
-                let concurrent = concurrent && out == Out::File && !mode.is_async() && rot.is_none() && terminal != Terminal::DropLastTwo;
+                let concurrent = concurrent && matches!(out, Out::File | Out::AdditionalFile) && !mode.is_async() && rot.is_none() && terminal != Terminal::DropLastTwo;
                 let ops: Vec<LOp> = if terminal == Terminal::DropLastTwo { ops.into_iter().filter(|o| !matches!(o, LOp::Sleep(_))).take(6).collect() } else { ops };
                 let rot = rot.map(|(n, nam)| {
                     let nam = match nam {
@@ -482,16 +486,28 @@ impl Property for P {
             }
         };
         match case.out {
-            Out::File => {
+            Out::File | Out::AdditionalFile => {
                 out.class(if case.cfg.rot.is_some() { "out:file+rotation" } else { "out:file" });
+                if case.out == Out::AdditionalFile {
+                    out.class("out:additional-file-writer");
+                }
                 let reps = if case.terminal == Terminal::DropLastTwo { 60 } else { 1 };
                 for rep in 0..reps {
                 if out.fail.is_some() {
                     break;
                 }
                 let dir = sc.sub(&format!("logs{rep}"));
-                let mut l = base_logger(case).log_to_file(case.cfg.file_spec(&dir));
-                if let Some(r) = &case.cfg.rot {
+                let mut l = if case.out == Out::AdditionalFile {
+                    let w = match flw_builder(&case.cfg, &dir, false, None).try_build() {
+                        Ok(w) => w,
+                        Err(e) => return Outcome::fail("build-failed", format!("{e:?}")),
+                    };
+                    let sink = Buffering { pending: Mutex::new(Vec::new()), committed: Arc::new(Mutex::new(Vec::new())) };
+                    base_logger(case).log_to_writer(Box::new(sink)).add_writer("F", Box::new(w))
+                } else {
+                    base_logger(case).log_to_file(case.cfg.file_spec(&dir))
+                };
+                if let (Some(r), true) = (&case.cfg.rot, case.out == Out::File) {
                     l = l.rotate(r.crit.to_flexi(), r.nam.to_flexi(), r.cln.to_flexi());
                 }
                 let built = if case.specfile { l.build_with_specfile(sc.sub(&format!("spec{rep}/logspec.toml"))) } else { l.build() };
